@@ -115,8 +115,11 @@ def c01(tier, seed):
 MC_ALG = {"type": "mc", "module": "MC_PolyAlgebra", "constants": {"MaxLen": 9, "MaxNZ": 2}, "workers": 1, "timeout": 3400}
 
 
+TLAPS = {"type": "tlaps", "module": "Recurrences"}
+
+
 def c07(tier, seed):
-    return [dict(MC_ALG), CALIB,
+    return [dict(MC_ALG), CALIB, TLAPS,
             {"type": "i2s", "name": "drive integ", "spec": "Trace_Ops", "cmd": ["drive", "integ", "{seed}", q(tier, 400, 6000), "{trace}"],
              "min_tally": [0, 0, 1000, 0]}]
 
@@ -126,7 +129,7 @@ def c08(tier, seed):
             CALIB,
             {"type": "i2s", "name": "drive deriv", "spec": "Trace_Ops", "cmd": ["drive", "deriv", "{seed}", q(tier, 400, 6000), "{trace}"],
              "min_tally": [0, 1000, 0, 0]},
-            {"type": "i2s", "name": "drive pwops (piecewise derivative)", "spec": "Trace_Ops", "cmd": ["drive", "pwops", "{seed}", q(tier, 40, 600), "{trace}"],
+            {"type": "i2s", "name": "drive pwops (piecewise derivative)", "spec": "Trace_Ops", "cmd": ["drive", "pwops", "{seed}", q(tier, 60, 600), "{trace}", "deriv"],
              "min_tally": [0, 0, 0, 500]}]
 
 
@@ -138,12 +141,15 @@ def c14(tier, seed):
 
 def c15(tier, seed):
     return [dict(MC_ALG), CALIB,
+            {"type": "mc", "module": "MC_Library", "constants": {"N": 2, "Depth": q(tier, 3, 5)}, "workers": q(tier, 6, 12), "heap": "12g", "timeout": 3400},
+            {"type": "i2s", "name": "drive session (whole-API sessions, state carried across calls)", "spec": "Trace_Library",
+             "cmd": ["drive", "session", "{seed}", q(tier, 300, 3000), "{trace}"], "min_tally": [500, 1000, 5, 10]},
             {"type": "i2s", "name": "drive pwops", "spec": "Trace_Ops", "cmd": ["drive", "pwops", "{seed}", q(tier, 60, 1000), "{trace}"],
-             "min_tally": [0, 0, 0, 1000], "min_nontrivial": 28}]
+             "min_tally": [0, 0, 0, 1000], "min_nontrivial": 19}]
 
 
 def c09(tier, seed):
-    return [dict(MC_ALG), CALIB,
+    return [dict(MC_ALG), CALIB, TLAPS,
             {"type": "i2s", "name": "drive logint", "spec": "Trace_Log", "cmd": ["drive", "logint", "{seed}", q(tier, 120, 1500), "{trace}"],
              "min_tally": [500, 300, 0, 0]}] + \
            ([{"type": "i2s", "name": "drive logint shard %d" % k, "spec": "Trace_Log",
@@ -178,7 +184,8 @@ def c11(tier, seed):
 def spline_steps(tier, seed, which):
     k, x, y = q(tier, (4, 4, 3), (5, 5, 3))
     steps = [
-        {"type": "mc", "module": "MC_Spline", "constants": {"K": k, "X": x, "Y": y, "Off": 0}, "workers": 4, "tag": "origin"},
+        {"type": "s2i", "kind": "spline", "via": "events", "trace": {"spec": "Trace_Build"},
+         "mc": {"module": "MC_Spline", "constants": {"K": k, "X": x, "Y": y, "Off": 0}, "workers": 1, "tag": "origin"}},
         {"type": "mc", "module": "MC_Spline", "constants": {"K": 4, "X": 3, "Y": 2, "Off": 100}, "workers": 2, "tag": "offset"},
         CALIB,
         {"type": "i2s", "name": "drive spline", "spec": "Trace_Build", "cmd": ["drive", "spline", "{seed}", q(tier, 1500, 6000), "{trace}"],
@@ -200,7 +207,8 @@ def c05(tier, seed):
 
 def c06(tier, seed):
     return [
-        {"type": "mc", "module": "MC_Linear", "constants": {"L": q(tier, 3, 4), "X": 4, "Y": 2}, "workers": 4},
+        {"type": "s2i", "kind": "linear", "via": "events", "trace": {"spec": "Trace_Build"},
+         "mc": {"module": "MC_Linear", "constants": {"L": q(tier, 3, 4), "X": 4, "Y": 2}, "workers": 1}},
         CALIB,
         {"type": "i2s", "name": "drive linear", "spec": "Trace_Build", "cmd": ["drive", "linear", "{seed}", q(tier, 2000, 20000), "{trace}"],
          "min_tally": [0, 0, 1500, 600]},
@@ -262,7 +270,7 @@ PLANS = {
             "steps": c08, "rule": "non-trivial = degree >= 2 (derivative events); piecewise events: all", "assumptions": ARITH_ASSUME},
     "C14": {"claim": "The pointwise meaning of scale/negate/add/subtract/translate is model-checked on the coefficient grid; every operator implementation that exists (128 type/operator instantiations, enforced as a coverage obligation) is run on random and special scalars and each number of each result is judged by TLC as the correctly rounded lane-wise operation; `*=` must equal `*` bit for bit; translate touches the additive constant only (empty PolyN becomes the constant).",
             "steps": c14, "rule": "distinct_nontrivial = distinct (type, operator) instantiations exercised", "assumptions": ARITH_ASSUME},
-    "C15": {"claim": "Scale, *=, negate, translate and derivative on Segment (by value and through &mut) and Piecewise over polynomial, Log, IntOfLog and IntOfLogPoly4 pieces: TLC checks same count, same breakpoint bits, each piece equal to the operation applied to it alone and judged as in C14, with scalars down to 1e-24.",
+    "C15": {"claim": "Scale, *=, negate and translate on Segment (by value and through &mut) and Piecewise over polynomial, Log, IntOfLog and IntOfLogPoly4 pieces: TLC checks same count, same breakpoint bits, each piece equal to the operation applied to it alone and judged as in C14, with scalars down to 1e-24.",
             "steps": c15, "rule": "distinct_nontrivial = distinct (piece type, lifted operator) instantiations exercised", "assumptions": ARITH_ASSUME},
     "C01": {"claim": "Horner = power sum = each Estrin scheme as written in poly.rs is model-checked on a coefficient grid for degrees 0..8; the grid is replayed bit-exactly on Poly0..8, PolyN and Log at v=1 under power-of-two scalings; random, cancelling, single-lane, tiny/huge and exact-regime inputs of all forms are judged by TLC with exact rational arithmetic against the stated bound 4(n+2)2^-53 sum|c_i||x|^i (plus the propagated ulp of ln for Log) and against exactness in the exact regime.",
             "steps": c01, "parallel": 8, "rule": "non-trivial = degree >= 2 with x # 0, or any Log event; tallies in impl_to_spec[].tally = [polynomial events in scope, of which exact regime, log events in scope]",
